@@ -890,9 +890,13 @@ func (w *world) runHandshake(hs *HS, created map[string]bool) Obs {
 		rcfg = w.c.Router.Template
 	}
 
+	if hs.AfterClose {
+		w.r.Close()
+		w.observers = map[string]*observer{}
+	}
 	var obs *observer
 	var before []uint64
-	if isHello {
+	if isHello && !hs.AfterClose {
 		o.ExistsBefore = w.realmExists(realm)
 		if o.ExistsBefore {
 			if obs = w.ensureObserver(realm); obs != nil {
@@ -1115,7 +1119,7 @@ func (w *world) runHandshake(hs *HS, created map[string]bool) Obs {
 		synctest.Wait()
 	}
 
-	if isHello && !o.RealmClosing {
+	if isHello && !o.RealmClosing && !hs.AfterClose {
 		o.ExistsAfter = w.realmExists(realm)
 		if o.ExistsAfter && !o.ExistsBefore {
 			created[realm] = true
